@@ -1,6 +1,195 @@
-(** C04 — placeholder until Proofs/Viterbi_proofs.v is in. *)
-From Coq Require Import List Arith PeanoNat.
-Require Import Fggs.Model.Semiring Fggs.Model.SumProduct Fggs.Model.Viterbi.
-Theorem C04_depth_pos : forall t, 1 <= depth t.
-Proof. intros [ri a ch]. simpl. apply le_n_S, Nat.le_0_l. Qed.
+(** C04 — viterbi returns a well-formed derivation of maximal weight.
+    Only property theorems live here, each closed by [exact] and followed by Print Assumptions.
+
+    The implementation is judged at the property's observation level: the derivation returned by
+    fggs.viterbi is converted to a [dtree] and handed, with derive()'s re-scored weight and the
+    observed sum_product(semiring=Viterbi) value, to [vit_check] (Model/Viterbi.v).  The theorems
+    say what verdict 0 means:
+      - [wf_dtree_b] decides the Prop [wf_dtree] (Proofs/SP_trees.v): the rule belongs to the
+        nonterminal rewritten, every node of the rule instance has a value in its domain, the
+        external nodes agree with the parent's assignment, exactly one child per edge (a
+        well-formed subtree for a nonterminal edge, none for a terminal edge);
+      - in the Viterbi semiring (max, +) every well-formed tree's weight is below the Kleene
+        iterate at its depth, hence below the exact least fixed point computed by [enclosure];
+        and that fixed point IS a maximum over the well-formed trees of bounded depth, attained
+        by one of them unless it is -inf;
+      - so "weight t = optimum" means: t is optimal among ALL derivations and assignments;
+      - [weight] is the product, over the rule instances of the tree, of the instance's terminal
+        factor entries = the score of derive()'s factor graph under derive()'s assignment.
+    The law records of the carrier ([sr_ring trop_ops], [sr_ordered trop_ops]) are proved in
+    Proofs/Viterbi_trop.v (restated here), so nothing below has a premise about the semiring. *)
+From Coq Require Import QArith Qcanon List Arith Bool PeanoNat.
+Import ListNotations.
+Require Import Fggs.Model.Semiring Fggs.Model.SCC Fggs.Model.SumProduct Fggs.Model.SumProductCheck
+               Fggs.Model.Kleene Fggs.Model.EReal Fggs.Model.Trop Fggs.Model.Viterbi.
+Require Import Fggs.Proofs.SP_trees Fggs.Proofs.Viterbi_trop Fggs.Proofs.Viterbi_proofs
+               Fggs.Proofs.Viterbi_examples.
+Local Open Scope nat_scope.
+
+(** * 0. the carrier: (max, +) on [-inf, +inf] is an ordered commutative semiring *)
+Theorem C04_trop_ring : sr_ring trop_ops.
+Proof. exact vt_trop_ring. Qed.
+Print Assumptions C04_trop_ring.
+
+Theorem C04_trop_ordered : sr_ordered trop_ops.
+Proof. exact vt_trop_ordered. Qed.
+Print Assumptions C04_trop_ordered.
+
+(** max is an upper bound of its arguments, returns one of them, and is idempotent *)
+Theorem C04_tmax_upper_bound : forall x y, tle x (tmax x y) /\ tle y (tmax x y).
+Proof. exact (fun x y => conj (vt_tle_max_l x y) (vt_tle_max_r x y)). Qed.
+Print Assumptions C04_tmax_upper_bound.
+
+Theorem C04_tmax_selective : forall x y, tmax x y = x \/ tmax x y = y.
+Proof. exact vt_tmax_cases. Qed.
+Print Assumptions C04_tmax_selective.
+
+Theorem C04_tmax_idempotent : forall x, tmax x x = x.
+Proof. exact vt_tmax_idem. Qed.
+Print Assumptions C04_tmax_idempotent.
+
+(** the boolean tests used by the check reflect the order and Leibniz equality *)
+Theorem C04_tleb_reflect : forall x y, tleb x y = true <-> tle x y.
+Proof. exact vt_tleb_iff. Qed.
+Print Assumptions C04_tleb_reflect.
+
+Theorem C04_teqb_reflect : forall x y, teqb x y = true <-> x = y.
+Proof. exact vt_teqb_iff. Qed.
+Print Assumptions C04_teqb_reflect.
+
+(** * 1. the well-formedness test decides the Prop, for every grammar (no guard needed:
+    [wf_dtree_b] compares the assignment with the node sizes coordinate by coordinate, which is
+    membership in [all_assts]; the extra length test on the children is implied by the
+    one-child-per-edge clause) *)
+Theorem C04_wf_reflect :
+  forall G t X xi, wf_dtree_b G X xi t = true <-> wf_dtree G X xi t.
+Proof. exact wf_reflect. Qed.
+Print Assumptions C04_wf_reflect.
+
+(** the model's [depth] (Model/Viterbi.v) is the [depth] of Proofs/SP_trees.v *)
+Theorem C04_depth_agrees : forall t, Viterbi.depth t = SP_trees.depth t.
+Proof. exact depth_eq. Qed.
+Print Assumptions C04_depth_agrees.
+
+Theorem C04_depth_pos : forall t, 1 <= Viterbi.depth t.
+Proof. exact depth_pos. Qed.
 Print Assumptions C04_depth_pos.
+
+(** * 2. every well-formed tree is below the Kleene iterate at its depth *)
+(** generic: any ordered commutative semiring (a <= a + b follows from 0 <= b) *)
+Theorem C04_tree_weight_below_kleene_generic :
+  forall R (o : sr_ops R), sr_ring o -> sr_ordered o ->
+  forall G (w : env (R:=R)) X xi t,
+    is_term G X = false -> wf_dtree G X xi t ->
+    le o (weight o G w t) (Zk o G w (Viterbi.depth t) X xi).
+Proof. exact (@tree_weight_below_Zk). Qed.
+Print Assumptions C04_tree_weight_below_kleene_generic.
+
+(** Viterbi.  The guard [is_term G X = false] is needed because [Zk] reads the terminal weight
+    at a terminal label; it follows from [wf_grammar G] (second form) since the tree's root rule
+    rewrites X *)
+Theorem C04_tree_weight_below_kleene :
+  forall G (w : env (R:=trop)) X xi t,
+    is_term G X = false -> wf_dtree G X xi t ->
+    tle (weight trop_ops G w t) (Zk trop_ops G w (Viterbi.depth t) X xi).
+Proof. exact trop_tree_weight_below_kleene. Qed.
+Print Assumptions C04_tree_weight_below_kleene.
+
+Theorem C04_tree_weight_below_kleene_wf :
+  forall G (w : env (R:=trop)) X xi t,
+    wf_grammar G = true -> wf_dtree G X xi t ->
+    tle (weight trop_ops G w t) (Zk trop_ops G w (Viterbi.depth t) X xi).
+Proof. exact trop_tree_weight_below_kleene_wf. Qed.
+Print Assumptions C04_tree_weight_below_kleene_wf.
+
+(** a well-formed tree of a well-formed grammar is a tree of a nonterminal of the grammar at an
+    in-range external assignment (so the theorems below need no range premise on xi) *)
+Theorem C04_wf_tree_in_range :
+  forall G X xi t, wf_grammar G = true -> wf_dtree G X xi t ->
+    In X (nonterminals G) /\ In xi (all_assts (lshape G X)).
+Proof. exact wf_dtree_in_range. Qed.
+Print Assumptions C04_wf_tree_in_range.
+
+(** * 3. the value of the exact enclosure is the optimum over ALL derivations *)
+(** upper bound for every nonterminal, every external assignment, every well-formed tree of
+    any depth; and the value is the Kleene iterate number k <= 4K = the max over the well-formed
+    trees of depth <= k, attained by one of them unless it is -inf *)
+Theorem C04_optimal :
+  forall G (w : env (R:=trop)) K lo u,
+    wf_grammar G = true ->
+    enclosure trop_ops (fun x => x) (fun x => x) tleb G w K = Some (lo, u) ->
+    (forall X xi t, wf_dtree G X xi t -> tle (weight trop_ops G w t) (env_of trop_ops lo X xi))
+    /\ exists k, k <= 4 * K /\
+       forall X xi, In X (nonterminals G) -> In xi (all_assts (lshape G X)) ->
+         env_of trop_ops lo X xi = Zk trop_ops G w k X xi
+         /\ Zk trop_ops G w k X xi = tree_sum trop_ops G w k X xi
+         /\ (env_of trop_ops lo X xi <> NInf ->
+             exists t, wf_dtree G X xi t /\ Viterbi.depth t <= k
+                       /\ weight trop_ops G w t = env_of trop_ops lo X xi).
+Proof. exact trop_optimal. Qed.
+Print Assumptions C04_optimal.
+
+(** * 4. soundness of the check function *)
+(** verdict 0 means: a derivation was returned; it is well formed for the start symbol at xi; its
+    weight is finite; no well-formed derivation of the start symbol at xi (of any depth, with any
+    assignment to the internal nodes) weighs more; that weight is the exact least fixed point
+    (a Kleene iterate that bounds all Kleene iterates); the observed sum_product(Viterbi)
+    interval contains it; derive()'s re-scored weight equals it *)
+Theorem C04_check_sound :
+  forall gw ws xi K kind t dw spv,
+    vit_check (gw, ws, xi, K, (kind, t, dw, spv)) = 0 ->
+    let G := grammar_of_w gw in
+    let w := env_of trop_ops (weights_tmt trop_of G ws) in
+    kind = 0 /\ wf_grammar G = true
+    /\ wf_dtree G (g_start G) xi t
+    /\ (exists q, weight trop_ops G w t = TFin q)
+    /\ (forall t', wf_dtree G (g_start G) xi t' -> tle (weight trop_ops G w t') (weight trop_ops G w t))
+    /\ (exists lo u k, enclosure trop_ops (fun x => x) (fun x => x) tleb G w K = Some (lo, u)
+                       /\ weight trop_ops G w t = env_of trop_ops lo (g_start G) xi
+                       /\ weight trop_ops G w t = Zk trop_ops G w k (g_start G) xi
+                       /\ forall k', tle (Zk trop_ops G w k' (g_start G) xi) (weight trop_ops G w t))
+    /\ tle (trop_of (fst spv)) (weight trop_ops G w t) /\ tle (weight trop_ops G w t) (trop_of (snd spv))
+    /\ trop_of dw = weight trop_ops G w t.
+Proof. exact vit_check_sound. Qed.
+Print Assumptions C04_check_sound.
+
+(** * 5. the weight of a derivation is the score of derive()'s factor graph *)
+(** [flatten t]: the rule instances (rule index, assignment) of t; [inst_weight]: the product of
+    one instance's terminal factor entries; any commutative semiring *)
+Theorem C04_weight_is_product :
+  forall R (o : sr_ops R), sr_ring o ->
+  forall G (w : env (R:=R)) t X xi,
+    wf_dtree G X xi t -> weight o G w t = prodS o (flatten t) (inst_weight o G w).
+Proof. exact (@weight_is_product). Qed.
+Print Assumptions C04_weight_is_product.
+
+(** [tree_factors G t]: one (terminal label, index tuple) per terminal edge of every rule
+    instance = the edges of derive()'s factor graph with the values of their attachment nodes *)
+Theorem C04_weight_is_factor_product :
+  forall R (o : sr_ops R), sr_ring o ->
+  forall G (w : env (R:=R)) t X xi,
+    wf_dtree G X xi t ->
+    weight o G w t = prodS o (tree_factors G t) (fun f => w (fst f) (snd f)).
+Proof. exact (@weight_is_factor_product). Qed.
+Print Assumptions C04_weight_is_factor_product.
+
+Theorem C04_weight_is_factor_product_viterbi :
+  forall G (w : env (R:=trop)) t X xi,
+    wf_dtree G X xi t ->
+    weight trop_ops G w t = prodS trop_ops (tree_factors G t) (fun f => w (fst f) (snd f)).
+Proof. exact (@weight_is_factor_product trop trop_ops vt_trop_ring). Qed.
+Print Assumptions C04_weight_is_factor_product_viterbi.
+
+(** * 6. the hypotheses are satisfiable: a recursive grammar with a weight-0 cycle listed
+    before the base rule; the check accepts the base-rule derivation and the tie through the
+    cycle, and -1 bounds all (infinitely many) derivations *)
+Theorem C04_example_check_accepts :
+  vit_check (ex_gw, ex_ws, [], 2, (0, ex_t, ex_m1, (ex_m1, ex_m1))) = 0
+  /\ vit_check (ex_gw, ex_ws, [], 2, (0, ex_t_cycle, ex_m1, (ex_m1, ex_m1))) = 0.
+Proof. exact ex_check_accepts. Qed.
+Print Assumptions C04_example_check_accepts.
+
+Theorem C04_example_all_trees_below :
+  forall t, wf_dtree ex_G 0 [] t -> tle (weight trop_ops ex_G ex_w t) (trop_of ex_m1).
+Proof. exact ex_all_trees_below. Qed.
+Print Assumptions C04_example_all_trees_below.
